@@ -513,7 +513,7 @@ func runC08(c *Ctx) {
 
 func init() {
 	Register(&Monitor{ID: "C08", Run: func(c *Ctx) {
-		c.Rule = "documents from both reference producers (all spellings/encodings, so skipped regions hold comments, long strings, lobs with delimiters, NOP pads) navigated by scripted programs over {skip, read with own accessor (twice), wrong accessor, StepIn (legal and refused), StepOut after k children, StepOut at top level (after the end, and on a current value of any kind, then read or skipped), Next after end}; every observation (Next result, Type, IsNull, FieldName, Annotations, value, refusals) compared with a reference cursor over the model tree. Non-trivial: the program skips or leaves early a container with children, or contains a refused call; distinct by (document, decision script)."
+		c.Rule = "documents from both reference producers (all spellings/encodings, so skipped regions hold comments, long strings, lobs with delimiters, NOP pads) navigated by scripted programs over {skip, read with own accessor (twice), wrong accessor, StepIn (legal and refused), StepOut after k children, StepOut at top level (after the end, and on a current value of any kind, then read or skipped), Next after end}; every observation (Next result, Type, IsNull, FieldName, Annotations, value, refusals) compared with a reference cursor over the model tree; on integers IntSize is asked before and after BigIntValue, Int64Value and IntValue and has to stay what it was (directed documents hold every integer within 1 of ±2^{7,8,15,16,31,32,63,64}). Non-trivial: the program skips or leaves early a container with children, or contains a refused call; distinct by (document, decision script)."
 		c.Assume("reference cursor implements the contract in reader.go's doc comment: after StepIn/StepOut/end there is no current value; refused calls change nothing")
 		runC08(c)
 	}, Replay: func(c *Ctx, v *Violation) string {
